@@ -484,6 +484,113 @@ def translate(repo="/repo"):
     bl = lambda v: "true" if v else "false"  # noqa: E731
     out.append(BINDER_TYPES % (bl(fa), bl(ex_), bl(su), bl(it), bl(se)))
     summary["binders_forced_const"] = {"forall": fa, "exists": ex_, "sum": su, "iteration": it, "select": se}
+    # ---- the builder: how declaration syntax becomes a declared type ------------------------------------------------------------
+    bh = rd("include/utap/builder.h")
+    m = re.search(r"enum\s+PREFIX\s*\{(.*?)\}", bh, re.S)
+    if not m:
+        raise TranslateError("enum PREFIX not found in builder.h")
+    enum = [re.sub(r"\s*=.*", "", x.strip()) for x in m.group(1).split(",") if x.strip()]
+    expected_enum = ["PREFIX_NONE", "PREFIX_CONST", "PREFIX_URGENT", "PREFIX_BROADCAST", "PREFIX_URGENT_BROADCAST",
+                     "PREFIX_SYSTEM_META", "PREFIX_HYBRID"]
+    if enum != expected_enum:
+        raise TranslateError("enum PREFIX changed: %s (the model's `Prefix` must be extended)" % enum)
+    lean_prefix = {"PREFIX_NONE": ".none", "PREFIX_CONST": ".const", "PREFIX_URGENT": ".urgent", "PREFIX_BROADCAST": ".broadcast",
+                   "PREFIX_URGENT_BROADCAST": ".urgentBroadcast", "PREFIX_SYSTEM_META": ".systemMeta", "PREFIX_HYBRID": ".hybrid"}
+    body = function_body(eb_cpp, r"type_t\s+ExpressionBuilder::apply_prefix\s*\(\s*PREFIX\s+prefix\s*,\s*type_t\s+type\s*\)\s*\{",
+                         "ExpressionBuilder::apply_prefix")
+    pre, groups, post = switch_groups(body, "apply_prefix", head_rx=r"switch\s*\(\s*prefix\s*\)\s*")
+    if norm(pre) or norm(post):
+        raise TranslateError("apply_prefix: statements outside the switch")
+    rows, default = {}, None
+    for labels, st in groups:
+        if st == norm("return type;"):
+            ks = []
+        else:
+            mm = re.fullmatch(r"return type((?:\.create_prefix\(\w+,position\))+);", st)
+            if not mm:
+                raise TranslateError("apply_prefix: unrecognised statement for %s: %r" % (labels, st))
+            ks = re.findall(r"create_prefix\((\w+),position\)", mm.group(1))
+            for k1 in ks:
+                lean_kind(k1, kn)
+        for l in labels:
+            if l == "default":
+                default = ks
+            elif l in lean_prefix:
+                rows[l] = ks
+            else:
+                raise TranslateError("apply_prefix: unknown prefix %r" % l)
+    if default is None:
+        raise TranslateError("apply_prefix: no default")
+    L = ["/-- `enum PREFIX` of builder.h -/", "inductive Prefix where",
+         "  | none | const | urgent | broadcast | urgentBroadcast | systemMeta | hybrid", "deriving DecidableEq, Repr", "",
+         "/-- `ExpressionBuilder::apply_prefix`: the kinds wrapped around the type, innermost first -/",
+         "def prefixKinds : Prefix → List Kind"]
+    for e in expected_enum:
+        ks = rows.get(e, default)
+        L.append("  | %s => [%s]" % (lean_prefix[e], ", ".join(".k" + k1 for k1 in ks)))
+    out.append("\n".join(L))
+    summary["apply_prefix"] = {e: rows.get(e, default) for e in expected_enum}
+
+    # which type callbacks hand their result through apply_prefix(prefix, ..)
+    def ends_with_apply(src, cls, fname, args_rx, tail_variants):
+        body = norm(function_body(src, r"void\s+%s::%s\s*\(%s\)\s*\{" % (cls, fname, args_rx), fname))
+        for tail, val in tail_variants:
+            if norm(tail) in body:
+                return val
+        raise TranslateError("%s: no recognised push of the constructed type: %r" % (fname, body[-200:]))
+
+    PFX = r"\s*PREFIX\s+prefix\s*"
+    cbs = {}
+    for fname, args in (("type_bool", PFX), ("type_int", PFX), ("type_double", PFX), ("type_bounded_int", PFX), ("type_clock", PFX)):
+        cbs[fname] = ends_with_apply(eb_cpp, "ExpressionBuilder", fname, args,
+                                     [("typeFragments.push(apply_prefix(prefix, type));", True), ("typeFragments.push(type);", False)])
+    cbs["type_name"] = ends_with_apply(eb_cpp, "ExpressionBuilder", "type_name", PFX + r",\s*const\s+char\s*\*\s*name\s*",
+                                       [("type = type.create_label(uid.get_name(), position); typeFragments.push(apply_prefix(prefix, type));", True),
+                                        ("type = type.create_label(uid.get_name(), position); typeFragments.push(type);", False)])
+    cbs["type_scalar"] = ends_with_apply(eb_cpp, "ExpressionBuilder", "type_scalar", PFX,
+                                         [("type = type_t::create_range(type, lower, upper, position); type = apply_prefix(prefix, type);", True),
+                                          ("type = type_t::create_range(type, lower, upper, position); string count", False)])
+    cbs["type_struct"] = ends_with_apply(sb_cpp, "StatementBuilder", "type_struct", PFX + r",\s*uint32_t\s+n\s*",
+                                         [("typeFragments.push(apply_prefix(prefix, type_t::create_record(f, l, position)));", True),
+                                          ("typeFragments.push(type_t::create_record(f, l, position));", False)])
+    # type_int: plain `int` is a RANGE unless the prefix is const
+    body = norm(function_body(eb_cpp, r"void\s+ExpressionBuilder::type_int\s*\(" + PFX + r"\)\s*\{", "type_int"))
+    int_range_unless_const = norm("if (prefix != PREFIX_CONST) { type = type_t::create_range(type, make_constant(defaultIntMin), "
+                                  "make_constant(defaultIntMax), position); }") in body
+    body = norm(function_body(sb_cpp, r"void\s+StatementBuilder::type_array_of_type\s*\(\s*size_t\s+n\s*\)\s*\{", "type_array_of_type"))
+    if norm("typeFragments[n - 1] = type_t::create_array(typeFragments[n - 1], size, position);") not in body:
+        raise TranslateError("type_array_of_type: the element type is not wrapped by create_array(typeFragments[n - 1], size, ..)")
+    body = norm(function_body(sb_cpp, r"void\s+StatementBuilder::type_array_of_size\s*\(\s*size_t\s+n\s*\)\s*\{", "type_array_of_size"))
+    if not body.endswith(norm("type_bounded_int(PREFIX_NONE); type_array_of_type(n + 1);")):
+        raise TranslateError("type_array_of_size: does not end in type_bounded_int(PREFIX_NONE); type_array_of_type(n + 1);")
+    body = norm(function_body(sb_cpp, r"void\s+StatementBuilder::decl_parameter\s*\(\s*const\s+char\s*\*\s*name\s*,\s*bool\s+ref\s*\)\s*\{",
+                              "decl_parameter"))
+    mm = re.fullmatch(r"type_t type=typeFragments\[0\];typeFragments\.pop\(\);(?:if\(ref\)\{type=type\.create_prefix\((\w+)\);\})?"
+                      r"params\.add_symbol\(name,type,position\);", body)
+    if not mm:
+        raise TranslateError("decl_parameter: unrecognised shape: %r" % body)
+    ref_kind = mm.group(1)
+    body = norm(function_body(sb_cpp, r"void\s+StatementBuilder::struct_field\s*\(\s*const\s+char\s*\*\s*name\s*\)\s*\{", "struct_field"))
+    field_test = norm("if (type.is(CONSTANT)) { handle_error(TypeException{\"$Constant_fields_not_allowed_in_struct\"}); }") in body
+    names = {"type_bool": "bool", "type_int": "int", "type_double": "double", "type_bounded_int": "boundedInt", "type_clock": "clock",
+             "type_name": "name", "type_scalar": "scalar", "type_struct": "struct"}
+    L = ["/-- the type callbacks of the builder -/", "inductive TypeCallback where",
+         "  | bool | int | double | boundedInt | clock | name | scalar | struct", "deriving DecidableEq, Repr", "",
+         "/-- does the callback hand the type it constructed through `apply_prefix(prefix, ..)`? -/",
+         "def appliesPrefix : TypeCallback → Bool"]
+    for f in ("type_bool", "type_int", "type_double", "type_bounded_int", "type_clock", "type_name", "type_scalar", "type_struct"):
+        L.append("  | .%s => %s" % (names[f], bl(cbs[f])))
+    L += ["", "/-- `type_int`: a plain `int` is RANGE(INT) unless the prefix is const -/",
+          "def intIsRangeUnlessConst : Bool := %s" % bl(int_range_unless_const), "",
+          "/-- `decl_parameter(name, ref)`: the kind wrapped around the type of a reference parameter -/",
+          "def refParamKinds : List Kind := [%s]" % (".k" + ref_kind if ref_kind else ""), "",
+          "/-- `struct_field`: a field whose type `is(CONSTANT)` is refused -/",
+          "def structFieldRefusesIsConstant : Bool := %s" % bl(field_test)]
+    if ref_kind:
+        lean_kind(ref_kind, kn)
+    out.append("\n".join(L))
+    summary["callbacks_apply_prefix"] = cbs
+
     out.append("end UtapModel.ConstGen\n")
     return "\n\n".join(out), summary
 
